@@ -12,6 +12,8 @@ driver handler for the family `mmrs` (C12, `MmrSuccessorProof`).
 * `tamper oc op leafs kind pos d`     same, then one tampering of (paths | old | new) before `verify`: `ok:<bool>`
 * `verify tag oc op nc np paths`      `verify` on an arbitrary triple (`tag` = the generator's expectation, ignored here): `ok:<bool>`
 * `hp l r`                           the fast `hash_pair` instance used by this driver (validated against the crate); `hp2`: against `TF.Hash.hashPair`
+* `bgen oc op leafs` / `btamper …`    the same as `gen` / `tamper`, used for LARGE structured old counts (carries through
+                                      high bits of the leaf count); the harness evaluates them in a watchdog child process
 * `free_check N`                      bounded *test* in the model with a free hash algebra (every pair old+appended ≤ N):
                                       generated proof = `succPathsOf`, verifies, reference verifier agrees
 -/
@@ -85,6 +87,25 @@ def freeCheckPair (oldN m : Nat) : Bool :=
 def freeCheck (N : Nat) : Bool :=
   (List.range (N + 1)).all fun oldN => (List.range (N + 1 - oldN)).all fun m => freeCheckPair oldN m
 
+/-- reply of `gen` (also used for `bgen`) -/
+def genReply (oc : Nat) (op leafs : List Dg) : String :=
+  let old : Acc Dg := { count := oc, peaks := op }
+  match Acc.appendAll Hh leafs old, newFromBatchAppend Hh dflt old leafs with
+  | some new, some paths =>
+    match verify Hh dflt paths old new with
+    | some b => "ok:" ++ fmtDigests paths ++ ":" ++ fmtBool b
+    | none => "panic"
+  | _, _ => "panic"
+
+/-- reply of `tamper` (also used for `btamper`) -/
+def tamperReply (oc : Nat) (op leafs : List Dg) (kind : String) (pos : Nat) (d : Dg) : Option String :=
+  let old : Acc Dg := { count := oc, peaks := op }
+  match Acc.appendAll Hh leafs old, newFromBatchAppend Hh dflt old leafs with
+  | some new, some paths => do
+    let (p', o', n') ← tamper kind pos d paths old new
+    pure (okBool (verify Hh dflt p' o' n'))
+  | _, _ => some "panic"
+
 def mmrs : Handler
   | "gen", [.nat oc, op, leafs] => do
     let op ← op.natListList?
@@ -120,6 +141,10 @@ def mmrs : Handler
     let b ← r.natList?
     pure ("ok:" ++ fmtBool (Hh a b == TF.Hash.hashPair a b))
   | "free_check", [.nat n] => some ("ok:" ++ fmtBool (freeCheck n))
+  | "bgen", [.nat oc, op, leafs] => do
+    pure (genReply oc (← op.natListList?) (← leafs.natListList?))
+  | "btamper", [.nat oc, op, leafs, .sym kind, .nat pos, d] => do
+    tamperReply oc (← op.natListList?) (← leafs.natListList?) kind pos (← d.natList?)
   | _, _ => none
 
 end TF.Drv.MmrSucc
